@@ -952,7 +952,64 @@ pub fn iter_template(g: &mut Gen, out: &mut Vec<Stmt>) {
     let setf = |f: &str, e: Expr| Stmt::expr(Expr::assign(Target::Prop(Expr::SelfE, f.to_string()), e));
     let getf = |f: &str| Expr::get(Expr::SelfE, f);
     let stop = || Expr::invoke(v("StopIter"), "new", vec![]);
-    match g.rd.below(7) {
+    match g.rd.below(8) {
+        7 => {
+            // ranges that stay in use while many younger ones are built: a range held in a variable,
+            // a range a loop is running over, a range under an adapter chain; in between, nine or
+            // more distinct ranges (slice bounds, inner loops), more than any small cache of recently
+            // built ranges holds. No range is compared with another one.
+            g.label_pub("range_pressure");
+            let a = g.rd.below(3) as f64;
+            let b = a + 2.0 + g.rd.below(3) as f64;
+            let held = g.fresh_pub("held");
+            let x = g.fresh_pub("x");
+            let k = g.fresh_pub("k");
+            let acc = g.fresh_pub("acc");
+            let descending = g.rd.chance(1, 3);
+            let held_range = if descending { Expr::range(n(b), n(a)) } else { Expr::range(n(a), n(b)) };
+            out.push(Stmt::var(&held, Some(held_range)));
+            out.push(Stmt::var(&acc, Some(n(0.0))));
+            let data = Expr::VecLit((0..12).map(|i| n(i as f64 * 10.0)).collect());
+            let churn = |k: &str, acc: &str| -> Stmt {
+                // nine slices with nine different bounds
+                Stmt::new(StmtKind::For(
+                    k.to_string(),
+                    Expr::range(n(0.0), n(9.0)),
+                    vec![Stmt::expr(Expr::assign_var(
+                        acc,
+                        Expr::bin(BinOp::Add, Expr::var(acc), Expr::invoke(Expr::index(data.clone(), Expr::range(Expr::var(k), Expr::bin(BinOp::Add, Expr::var(k), n(2.0)))), "len", vec![])),
+                    ))],
+                ))
+            };
+            match g.rd.below(3) {
+                0 => {
+                    // the loop's own range is evicted while the loop runs
+                    let lo = g.rd.below(3) as f64 + 20.0;
+                    out.push(Stmt::new(StmtKind::For(
+                        x.clone(),
+                        Expr::range(n(lo), n(lo + 3.0)),
+                        vec![churn(&k, &acc), Stmt::print(Expr::VecLit(vec![v(&x), v(&acc)]))],
+                    )));
+                }
+                1 => {
+                    // an adapter chain over a range, consumed after the churn
+                    let it = g.fresh_pub("it");
+                    let f = g.lambda_pub(1);
+                    out.push(Stmt::var(&it, Some(Expr::invoke(Expr::invoke(Expr::range(n(30.0), n(34.0)), "iter", vec![]), "map", vec![f]))));
+                    out.push(churn(&k, &acc));
+                    let gd = g.guard_begin_pub();
+                    let s = g.guard_end_pub(gd, Stmt::print(Expr::invoke(v(&it), "collect", vec![])));
+                    out.push(s);
+                }
+                _ => {
+                    out.push(churn(&k, &acc));
+                }
+            }
+            out.push(Stmt::print(v(&held)));
+            out.push(Stmt::print(Expr::invoke(Expr::invoke(v(&held), "iter", vec![]), "collect", vec![])));
+            out.push(Stmt::print(Expr::index(data.clone(), v(&held))));
+            out.push(Stmt::print(v(&acc)));
+        }
         0 | 1 => {
             // a counting iterator class; deriving Iter gives it map/filter/collect/reduce
             let k = g.fresh_pub("ItCount");
